@@ -14,6 +14,7 @@ from insights.core import dr
 from insights.core.plugins import component
 
 BEHAV = {}
+CALLS = {}
 
 
 def fail(**kw):
@@ -29,6 +30,7 @@ def make(i, kinds, comps):
     opt = [comps[j] for j, k in enumerate(kinds) if k == "o"]
 
     def body(*args):
+        CALLS[i] = CALLS.get(i, 0) + 1
         if BEHAV[i] == "crash":
             raise ValueError("crash %d" % i)
         return "v%d(%s)" % (i, ",".join(str(a) for a in args))
@@ -66,16 +68,66 @@ for n in range(1, N + 1):
         if sorted(map(comps.index, seen)) != list(range(n)):
             fail(violation="sub-graphs lose or duplicate a component", kinds=["".join(k) for k in kindsets], parts=[[comps.index(c) for c in p] for p in parts])
         for outcomes in itertools.product(("value", "crash"), repeat=n):
+          for disabled in [None] + list(range(n)):
             for i in range(n):
                 BEHAV[i] = outcomes[i]
+                dr.set_enabled(comps[i], i != disabled)
+            if disabled is not None:
+                parts = list(dr.get_subgraphs(dict(graph)))
+                seen = [c for p in parts for c in p]
+                if sorted(map(comps.index, seen)) != list(range(n)):
+                    fail(violation="sub-graphs lose or duplicate a component (one component disabled)", kinds=["".join(k) for k in kindsets], disabled=disabled,
+                         parts=[[comps.index(c) for c in p] for p in parts])
+            counts = []
+            CALLS.clear()
             one = summary([dr.run(dict(graph), broker=dr.Broker())], comps)
+            counts.append(dict(CALLS))
+            CALLS.clear()
             inc = summary(list(dr.run_incremental(dict(graph))), comps)
+            counts.append(dict(CALLS))
+            CALLS.clear()
+            shared = dr.Broker()
+            list(dr.run_incremental(dict(graph), broker=shared))          # one shared broker for all sub-graphs
+            counts.append(dict(CALLS))
+            CALLS.clear()
             par = summary(dr.run_all(dict(graph), pool=pool), comps)
+            counts.append(dict(CALLS))
             runs += 1
+            if any(v > 1 for c in counts for v in c.values()) or len(set(json.dumps(c, sort_keys=True) for c in counts)) != 1:
+                fail(violation="a component body ran more than once, or a different number of times, depending on how the graph is scheduled",
+                     kinds=["".join(k) for k in kindsets], outcomes=outcomes, disabled=disabled,
+                     calls=dict(single_pass=counts[0], incremental=counts[1], incremental_shared_broker=counts[2], pooled=counts[3]))
             h.update(json.dumps([one[0], one[1], one[2]], sort_keys=True).encode())
             if not (one == inc == par):
-                fail(violation="results depend on how the graph is scheduled", kinds=["".join(k) for k in kindsets], outcomes=outcomes,
+                fail(violation="results depend on how the graph is scheduled", kinds=["".join(k) for k in kindsets], outcomes=outcomes, disabled=disabled,
                      single_pass=one, incremental=inc, pooled=par)
+        for c in comps:
+            dr.set_enabled(c, True)
+# ---- a dependency attached after registration (as every registry point implementation is): the registered group graph that dr.run() uses by
+# default must contain the edge, like get_dependency_graph does
+from insights.core.plugins import datasource
+GROUP = "verif_sched_group"
+
+
+def mkc(name, *deps):
+    def body(*args):
+        return name
+    body.__name__ = body.__qualname__ = name
+    body.__module__ = "verif_sched_late"
+    return component(*deps, group=GROUP)(body)
+
+
+late_dep = mkc("late_dep")
+point = mkc("point", [])          # like a registry point: an (initially empty) at-least-one group that implementations are added to
+consumer = mkc("consumer", point)
+dr.get_delegate(point).add_dependency(late_dep)
+via_group = dr.run(GROUP, broker=dr.Broker())
+via_graph = dr.run(dr.get_dependency_graph(consumer), broker=dr.Broker())
+if set(dr.COMPONENTS[GROUP][point]) != set(dr.get_dependencies(point)) or (late_dep in via_group) != (late_dep in via_graph) \
+        or [c in via_group for c in (point, consumer)] != [c in via_graph for c in (point, consumer)]:
+    fail(violation="a dependency attached after registration is missing from the registered group graph: evaluating the group differs from "
+                   "evaluating the dependency graph", group_edges=sorted(x.__name__ for x in dr.COMPONENTS[GROUP][point]),
+         declared=sorted(x.__name__ for x in dr.get_dependencies(point)))
 pool.shutdown()
 if DIGEST_ONLY:
     print(h.hexdigest())
